@@ -144,6 +144,41 @@ def get_line_context(line: str) -> tuple[str, None] | tuple[str, str]:
         return "default", None
 
 
+def get_parameter_value(line: str) -> str | None:
+    """Get the value of a PARAMETER from the text following its name i.e.
+    ``[(dims)] = value[, ...]``
+
+    The value ends at the first comma that is not inside parentheses, brackets
+    or a character literal, or at a trailing comment.
+
+    >>> get_parameter_value(" = 2*(3+1), m = 4")
+    '2*(3+1)'
+    """
+    eq_ind = strip_strings(line, maintain_len=True).find("=")
+    if eq_ind < 0 or not re.match(r"[ &]*(\([^=]*\))?[ &]*$", line[:eq_ind]):
+        return None
+    if line[eq_ind + 1 : eq_ind + 2] == ">":
+        return None
+    level = 0
+    quote = ""
+    end = len(line)
+    for i in range(eq_ind + 1, len(line)):
+        char = line[i]
+        if quote:
+            if char == quote:
+                quote = ""
+        elif char in ("'", '"'):
+            quote = char
+        elif char in ("(", "["):
+            level += 1
+        elif char in (")", "]"):
+            level -= 1
+        elif (char == "," and level == 0) or char == "!":
+            end = i
+            break
+    return " ".join(line[eq_ind + 1 : end].replace("&", " ").split())
+
+
 def parse_var_keywords(test_str: str) -> tuple[list[str], str]:
     """Parse Fortran variable declaration keywords"""
     # Needs to be this way and not simply call finditer because no regex can
@@ -1463,9 +1498,8 @@ class FortranFile:
                         #  the value in hover
                         if new_var.is_parameter():
                             _, col = find_word_in_line(line, name)
-                            match = FRegex.PARAMETER_VAL.match(line[col:])
-                            if match:
-                                var = " ".join(match.group(1).strip().split())
+                            var = get_parameter_value(line[col:])
+                            if var:
                                 new_var.set_parameter_val(var)
 
                         # Check if the "variable" is external and if so cycle
